@@ -103,7 +103,8 @@ def execute(case):
         nontrivial = True
         if rec['outcome'] == 'ok':
             viol.append(core.violation(ID, 'misuse-accepted', 'misuse-accepted:' + exp['misuse'], bad=exp.get('bad')))
-        elif any(len(v) > 0 for v in rec['series'].values()):
+        elif any(len(v) > 0 for v in rec['series'].values()) and \
+                core.canon_json(rec['series']) != core.canon_json(rec.get('prelude_series')):
             viol.append(core.violation(ID, 'misuse-left-numbers', 'misuse-left-numbers:' + exp['misuse'],
                                        bad=exp.get('bad')))
         st['misuse_rejected_with'] = {rec['outcome']: 1}
@@ -140,6 +141,14 @@ def execute(case):
                 st['probes']['iteration_failure_checked'] = 1
                 if rec['failed_period'] and rec['failed_period'] > 1:
                     st['probes']['failure_after_solved_periods'] = 1
+        # contrapositive of the first clause: a period that is reported has met the tolerance
+        if not viol:
+            for v in eqn.check_c02(case['block'], case['knobs'], rec, drive, prop=ID):
+                if v['kind'] == 'residual-exceeds-tolerance':
+                    v['kind'] = 'reported-without-meeting-tolerance'
+                    v['signature'] = 'reported-without-meeting-tolerance'
+                    viol.append(v)
+                    nontrivial = True
         # sweep bound also on success
         cap = case['knobs'].get('cap')
         cap = 400 if cap is None else cap
